@@ -34,7 +34,7 @@ def run(chk, repo):
     chk.attempt(e1, chk, op)
     tie = chk.attempt(e3, chk, op)
     chk.attempt(trace_truncation, chk, op, tie)
-    chk.attempt(e2, chk, op, covered_by="trace_truncation")
+    chk.attempt(e2, chk, op, covered_by="trace_truncation", rules=("C18-E2",))
     chk.attempt(e4, chk, op)
     chk.rule("C18-E6", "every loop on the open path is bounded: for-loops over finite collections; a while-loop makes progress in every iteration or leaves on a short/empty read", 0)
     chk.attempt(e6, chk, op, covered_by="trace_truncation")
